@@ -81,50 +81,50 @@ theorem read_write_byte (E : Env) (c : Ctx) (k : SpecKind)
     (hk : k = .byte ∨ k = .pictureType ∨ k = .ctocFlags ∨ k = .channel) (n : Nat) (hn : n < 256) (rest : Bytes) :
     ∃ b, writeSpec E.subw E.cfg k c (.int n) = .ok b ∧ readSpec E.sub E.h k c (b ++ rest) = .ok (.int n, rest) := by
   rcases hk with rfl | rfl | rfl | rfl
-  · exact read_write_spec E c .byte (.int n) ⟨n, rfl, hn⟩ rest ⟨by simp [greedy], by simp [isEncText]⟩
-  · exact read_write_spec E c .pictureType (.int n) ⟨n, rfl, hn⟩ rest ⟨by simp [greedy], by simp [isEncText]⟩
-  · exact read_write_spec E c .ctocFlags (.int n) ⟨n, rfl, hn⟩ rest ⟨by simp [greedy], by simp [isEncText]⟩
-  · exact read_write_spec E c .channel (.int n) ⟨n, rfl, hn⟩ rest ⟨by simp [greedy], by simp [isEncText]⟩
+  · exact read_write_spec E c .byte (.int n) ⟨n, rfl, hn⟩ rest (by simp [RestOK, greedy])
+  · exact read_write_spec E c .pictureType (.int n) ⟨n, rfl, hn⟩ rest (by simp [RestOK, greedy])
+  · exact read_write_spec E c .ctocFlags (.int n) ⟨n, rfl, hn⟩ rest (by simp [RestOK, greedy])
+  · exact read_write_spec E c .channel (.int n) ⟨n, rfl, hn⟩ rest (by simp [RestOK, greedy])
 
 /-- EncodingSpec: 0..3 -/
 theorem read_write_encoding (E : Env) (c : Ctx) (n : Nat) (hn : n ≤ 3) (rest : Bytes) :
     ∃ b, writeSpec E.subw E.cfg .encoding c (.int n) = .ok b ∧
       readSpec E.sub E.h .encoding c (b ++ rest) = .ok (.int n, rest) :=
-  read_write_spec E c .encoding (.int n) ⟨n, rfl, hn⟩ rest ⟨by simp [greedy], by simp [isEncText]⟩
+  read_write_spec E c .encoding (.int n) ⟨n, rfl, hn⟩ rest (by simp [RestOK, greedy])
 
 /-- StringSpec(n) and FrameIDSpec(n): ASCII text of exactly `n > 0` characters -/
 theorem read_write_string (E : Env) (c : Ctx) (k : SpecKind) (n : Nat) (hk : k = .string n ∨ k = .frameId n)
     (t : Text) (hlen : t.length = n) (hn : 0 < n) (ht : ∀ x ∈ t, x < 128) (rest : Bytes) :
     ∃ b, writeSpec E.subw E.cfg k c (.text t) = .ok b ∧ readSpec E.sub E.h k c (b ++ rest) = .ok (.text t, rest) := by
   rcases hk with rfl | rfl
-  · exact read_write_spec E c (.string n) (.text t) ⟨t, rfl, hlen, hn, ht⟩ rest ⟨by simp [greedy], by simp [isEncText]⟩
-  · exact read_write_spec E c (.frameId n) (.text t) ⟨t, rfl, hlen, hn, ht⟩ rest ⟨by simp [greedy], by simp [isEncText]⟩
+  · exact read_write_spec E c (.string n) (.text t) ⟨t, rfl, hlen, hn, ht⟩ rest (by simp [RestOK, greedy])
+  · exact read_write_spec E c (.frameId n) (.text t) ⟨t, rfl, hlen, hn, ht⟩ rest (by simp [RestOK, greedy])
 
 /-- BinaryDataSpec: every byte string (0x00 / 0xFF runs included), at the end of the frame -/
 theorem read_write_binary (E : Env) (c : Ctx) (data : Bytes) :
     ∃ b, writeSpec E.subw E.cfg .binary c (.bytes data) = .ok b ∧
       readSpec E.sub E.h .binary c b = .ok (.bytes data, []) := by
-  have := read_write_spec E c .binary (.bytes data) ⟨data, rfl⟩ [] ⟨fun _ => rfl, by simp [isEncText]⟩
+  have := read_write_spec E c .binary (.bytes data) ⟨data, rfl⟩ [] (fun _ => rfl)
   simpa [normVal] using this
 
 /-- EncodedTextSpec, EncodedNumericTextSpec, EncodedNumericPartTextSpec: NUL-free text, under
 each of the four encodings `enc` the frame may have (Latin-1: code points ≤ 0xFF; the others:
 Unicode scalar values, astral ones as surrogate pairs in UTF-16) -/
 theorem read_write_encodedText (E : Env) (c : Ctx) (enc : Nat) (hc : ctxEnc c = .ok enc) (tk : TextKind)
-    (htk : tk ≠ .timeStamp) (t : Text) (ht : TextOK enc t) (rest : Bytes) (hrest : TailOK E.h rest) :
+    (htk : tk ≠ .timeStamp) (t : Text) (ht : TextOK enc t) (rest : Bytes) :
     ∃ b, writeSpec E.subw E.cfg (.encText tk) c (.text t) = .ok b ∧
       readSpec E.sub E.h (.encText tk) c (b ++ rest) = .ok (.text t, rest) :=
   read_write_spec E c (.encText tk) (.text t) ⟨enc, t, rfl, hc, ht, fun h => absurd h htk⟩ rest
-    ⟨by simp [greedy], fun _ => hrest⟩
+    (by simp [RestOK, greedy])
 
 /-- TimeStampSpec: text that is a fixed point of `ID3TimeStamp` normalisation (written with
 `T` for the space, read back with the space) -/
 theorem read_write_timeStamp (E : Env) (c : Ctx) (enc : Nat) (hc : ctxEnc c = .ok enc) (t : Text)
-    (ht : TextOK enc t) (hfix : tsNormalize (tsWire t) = .ok t) (rest : Bytes) (hrest : TailOK E.h rest) :
+    (ht : TextOK enc t) (hfix : tsNormalize (tsWire t) = .ok t) (rest : Bytes) :
     ∃ b, writeSpec E.subw E.cfg (.encText .timeStamp) c (.text t) = .ok b ∧
       readSpec E.sub E.h (.encText .timeStamp) c (b ++ rest) = .ok (.text t, rest) :=
   read_write_spec E c (.encText .timeStamp) (.text t) ⟨enc, t, rfl, hc, ht, fun _ => hfix⟩ rest
-    ⟨by simp [greedy], fun _ => hrest⟩
+    (by simp [RestOK, greedy])
 
 /-- MultiSpec over one or more specs of the EncodedTextSpec family: a non-empty list of
 records (multi-values); under a v2.2/2.3 header every text must be non-empty -/
@@ -132,14 +132,14 @@ theorem read_write_multi (E : Env) (c : Ctx) (enc : Nat) (hc : ctxEnc c = .ok en
     (hne : elems ≠ []) (recs : List (List Val)) (hrne : recs ≠ []) (hrecs : ∀ r ∈ recs, RecordOK E.h enc elems r) :
     ∃ b, writeSpec E.subw E.cfg (.multi elems) c (.list (recs.map (recordVal elems))) = .ok b ∧
       readSpec E.sub E.h (.multi elems) c b = .ok (.list (recs.map (recordVal elems)), []) := by
-  have := read_write_spec E c (.multi elems) (.list (recs.map (recordVal elems))) ⟨hne, enc, recs, hc, rfl, hrne, hrecs⟩ [] ⟨fun _ => rfl, by simp [isEncText]⟩
+  have := read_write_spec E c (.multi elems) (.list (recs.map (recordVal elems))) ⟨hne, enc, recs, hc, rfl, hrne, hrecs⟩ [] (fun _ => rfl)
   simpa [normVal] using this
 
 /-- Latin1TextSpec: NUL-free text with code points ≤ 0xFF -/
 theorem read_write_latin1Text (E : Env) (c : Ctx) (t : Text) (ht : Latin1OK t) (rest : Bytes) :
     ∃ b, writeSpec E.subw E.cfg .latin1Text c (.text t) = .ok b ∧
       readSpec E.sub E.h .latin1Text c (b ++ rest) = .ok (.text t, rest) :=
-  read_write_spec E c .latin1Text (.text t) ⟨t, rfl, ht⟩ rest ⟨by simp [greedy], by simp [isEncText]⟩
+  read_write_spec E c .latin1Text (.text t) ⟨t, rfl, ht⟩ rest (by simp [RestOK, greedy])
 
 /-- Latin1TextListSpec: up to 255 such texts -/
 theorem read_write_latin1List (E : Env) (c : Ctx) (ts : List Text) (hlen : ts.length < 256)
@@ -147,19 +147,19 @@ theorem read_write_latin1List (E : Env) (c : Ctx) (ts : List Text) (hlen : ts.le
     ∃ b, writeSpec E.subw E.cfg .latin1List c (.list (ts.map Val.text)) = .ok b ∧
       readSpec E.sub E.h .latin1List c (b ++ rest) = .ok (.list (ts.map Val.text), rest) :=
   read_write_spec E c .latin1List (.list (ts.map Val.text)) ⟨ts, rfl, hlen, hts⟩ rest
-    ⟨by simp [greedy], by simp [isEncText]⟩
+    (by simp [RestOK, greedy])
 
 /-- SizedIntegerSpec(n): every integer below `256^n`, for every width `n > 0` -/
 theorem read_write_sizedInteger (E : Env) (c : Ctx) (n m : Nat) (hn : 0 < n) (hm : m < 256 ^ n) (rest : Bytes) :
     ∃ b, writeSpec E.subw E.cfg (.sizedInt n) c (.int m) = .ok b ∧
       readSpec E.sub E.h (.sizedInt n) c (b ++ rest) = .ok (.int m, rest) :=
-  read_write_spec E c (.sizedInt n) (.int m) ⟨m, rfl, hm, hn⟩ rest ⟨by simp [greedy], by simp [isEncText]⟩
+  read_write_spec E c (.sizedInt n) (.int m) ⟨m, rfl, hm, hn⟩ rest (by simp [RestOK, greedy])
 
 /-- IntegerSpec (PCNT/POPM/… counters): every non-negative integer, however large -/
 theorem read_write_integer (E : Env) (c : Ctx) (m : Nat) :
     ∃ b, writeSpec E.subw E.cfg .integer c (.int m) = .ok b ∧
       readSpec E.sub E.h .integer c b = .ok (.int m, []) := by
-  have := read_write_spec E c .integer (.int m) ⟨m, rfl⟩ [] ⟨fun _ => rfl, by simp [isEncText]⟩
+  have := read_write_spec E c .integer (.int m) ⟨m, rfl⟩ [] (fun _ => rfl)
   simpa [normVal] using this
 
 /-- … and a negative counter is rejected with ValueError (not written, no hang) -/
@@ -173,14 +173,14 @@ so the gain is reproduced to its wire precision (the harness checks the float ag
 theorem read_write_volumeAdjustment (E : Env) (c : Ctx) (i : Int) (h1 : -32768 ≤ i) (h2 : i ≤ 32767) (rest : Bytes) :
     ∃ b, writeSpec E.subw E.cfg .volAdj c (.int i) = .ok b ∧
       readSpec E.sub E.h .volAdj c (b ++ rest) = .ok (.int i, rest) :=
-  read_write_spec E c .volAdj (.int i) ⟨i, rfl, h1, h2⟩ rest ⟨by simp [greedy], by simp [isEncText]⟩
+  read_write_spec E c .volAdj (.int i) ⟨i, rfl, h1, h2⟩ rest (by simp [RestOK, greedy])
 
 /-- VolumePeakSpec: the 16-bit wire integer `n = intround(peak*32768)` is read as the
 fraction `(n·65536)/(2^31-1)` -/
 theorem read_write_volumePeak (E : Env) (c : Ctx) (n : Nat) (hn : n ≤ 65535) (rest : Bytes) :
     ∃ b, writeSpec E.subw E.cfg .volPeak c (.int n) = .ok b ∧
       readSpec E.sub E.h .volPeak c (b ++ rest) = .ok (.int (n * 65536 : Nat), rest) := by
-  have := read_write_spec E c .volPeak (.int n) ⟨n, rfl, hn⟩ rest ⟨by simp [greedy], by simp [isEncText]⟩
+  have := read_write_spec E c .volPeak (.int n) ⟨n, rfl, hn⟩ rest (by simp [RestOK, greedy])
   simpa [normVal] using this
 
 /-- … which differs from the written `n/32768` by at most `1/32768` (and is not smaller):
@@ -195,14 +195,14 @@ theorem read_write_synchronizedText (E : Env) (c : Ctx) (enc : Nat) (hc : ctxEnc
     (es : List (Text × Nat)) (hne : es ≠ []) (hes : SyncOK enc es) :
     ∃ b, writeSpec E.subw E.cfg .syncText c (.list (es.map syncVal)) = .ok b ∧
       readSpec E.sub E.h .syncText c b = .ok (.list (es.map syncVal), []) := by
-  have := read_write_spec E c .syncText (.list (es.map syncVal)) ⟨enc, es, hc, rfl, hne, hes⟩ [] ⟨fun _ => rfl, by simp [isEncText]⟩
+  have := read_write_spec E c .syncText (.list (es.map syncVal)) ⟨enc, es, hc, rfl, hne, hes⟩ [] (fun _ => rfl)
   simpa [normVal] using this
 
 /-- KeyEventSpec: a non-empty list of (signed byte, 32-bit time) -/
 theorem read_write_keyEvent (E : Env) (c : Ctx) (es : List (Int × Nat)) (hne : es ≠ []) (hes : KeyOK es) :
     ∃ b, writeSpec E.subw E.cfg .keyEvent c (.list (es.map keyVal)) = .ok b ∧
       readSpec E.sub E.h .keyEvent c b = .ok (.list (es.map keyVal), []) := by
-  have := read_write_spec E c .keyEvent (.list (es.map keyVal)) ⟨es, rfl, hne, hes⟩ [] ⟨fun _ => rfl, by simp [isEncText]⟩
+  have := read_write_spec E c .keyEvent (.list (es.map keyVal)) ⟨es, rfl, hne, hes⟩ [] (fun _ => rfl)
   simpa [normVal] using this
 
 /-- VolumeAdjustmentsSpec (EQU2): a non-empty list of (frequency·2, adjustment·512) with
@@ -210,7 +210,7 @@ strictly increasing 16-bit frequencies and signed 16-bit adjustments -/
 theorem read_write_volumeAdjustments (E : Env) (c : Ctx) (ps : List (Nat × Int)) (hne : ps ≠ []) (hps : AdjOK ps) :
     ∃ b, writeSpec E.subw E.cfg .volAdjs c (.list (ps.map adjVal)) = .ok b ∧
       readSpec E.sub E.h .volAdjs c b = .ok (.list (ps.map adjVal), []) := by
-  have := read_write_spec E c .volAdjs (.list (ps.map adjVal)) ⟨ps, rfl, hne, hps⟩ [] ⟨fun _ => rfl, by simp [isEncText]⟩
+  have := read_write_spec E c .volAdjs (.list (ps.map adjVal)) ⟨ps, rfl, hne, hps⟩ [] (fun _ => rfl)
   simpa [normVal] using this
 
 /-- ASPIIndexSpec: `N` indices of `b ∈ {8, 16}` bits each (`N`, `b` being the frame's fields) -/
@@ -220,7 +220,7 @@ theorem read_write_aspiIndex (E : Env) (c : Ctx) (b : Int) (hb : b = 8 ∨ b = 1
     ∃ d, writeSpec E.subw E.cfg .aspiIndex c (.list (vs.map natVal)) = .ok d ∧
       readSpec E.sub E.h .aspiIndex c (d ++ rest) = .ok (.list (vs.map natVal), rest) :=
   read_write_spec E c .aspiIndex (.list (vs.map natVal)) ⟨b, vs, hb, hcb, hcn, rfl, hne, hvs⟩ rest
-    ⟨by simp [greedy], by simp [isEncText]⟩
+    (by simp [RestOK, greedy])
 
 /-- ID3FramesSpec (CHAP/CTOC sub-frames), relative to the nested writer/reader: if that pair
 round-trips on the frame list, so does the spec -/
@@ -228,7 +228,7 @@ theorem read_write_frames (E : Env) (c : Ctx) (fs : List Val) (b : Bytes) (hw : 
     (hr : E.sub { E.h with unsynch := false } b = .ok (fs, [])) :
     writeSpec E.subw E.cfg .frames c (.list fs) = .ok b ∧
       readSpec E.sub E.h .frames c b = .ok (.list fs, []) := by
-  obtain ⟨b', h1, h2⟩ := read_write_spec E c .frames (.list fs) ⟨fs, b, rfl, hw, hr⟩ [] ⟨fun _ => rfl, by simp [isEncText]⟩
+  obtain ⟨b', h1, h2⟩ := read_write_spec E c .frames (.list fs) ⟨fs, b, rfl, hw, hr⟩ [] (fun _ => rfl)
   have : b' = b := by rw [writeSpec_frames, hw] at h1; cases h1; rfl
   subst this
   exact ⟨h1, by simpa [normVal] using h2⟩
@@ -269,8 +269,6 @@ configuration, any header version: if
   first optional spec left out (if any) does not have `handle_nodata` (else it is read as empty),
 * every value is `Valid` given the attributes set by the fields before it (`FieldsValid`;
   in particular non-degenerate: non-empty lists, so that something is written),
-* under a v2.2/2.3 header the bytes after each text field are empty or not all NUL
-  (`TailsOK`; vacuous for v2.4 — see `v23_zero_tail_counterexample`),
 then the frame's bytes are read back as the same values (`normVals`: identity except the
 peak scale), with nothing left over.  Proved by induction over the spec list
 (`readOpt_writeOpt`), using `greedy_last` for the class. -/
@@ -278,13 +276,11 @@ theorem frame_roundtrip (E : Env) (cls : FrameClass) (hcls : cls ∈ Id3Table.fr
     (hcfg : E.cfg.version ≠ 3)
     (hlen1 : cls.required.length ≤ vals.length) (hlen2 : vals.length ≤ (cls.required ++ cls.optional).length)
     (hvalid : FieldsValid E (initCtx cls.required {}) (cls.required ++ cls.optional) vals)
-    (htails : TailsOK E (frameCtx (cls.required ++ cls.optional) vals (initCtx cls.required {}))
-      (cls.required ++ cls.optional) vals)
     (hcomp : ∀ hlt : vals.length < (cls.required ++ cls.optional).length,
       handleNoData ((cls.required ++ cls.optional)[vals.length]).kind = false) :
     ∃ b, writeFrame E.subw E.cfg cls vals = .ok b ∧
       readFrame E.sub E.h cls b = .ok (normVals (cls.required ++ cls.optional) vals, []) :=
-  readFrame_writeFrame E cls vals vals (by simp [hcfg]) (greedy_last cls hcls) hlen1 hlen2 hvalid htails hcomp
+  readFrame_writeFrame E cls vals vals (by simp [hcfg]) (greedy_last cls hcls) hlen1 hlen2 hvalid hcomp
 
 /-- the same for an ID3v2.3 save configuration: what is written is the `_get_v23_frame`
 conversion `vals'` of the values (encodings other than Latin-1/UTF-16 become UTF-16,
@@ -294,13 +290,11 @@ theorem frame_roundtrip_v23 (E : Env) (cls : FrameClass) (hcls : cls ∈ Id3Tabl
     (hconv : toV23 E.cfg.sep (cls.required ++ cls.optional) vals = .ok vals')
     (hlen1 : cls.required.length ≤ vals'.length) (hlen2 : vals'.length ≤ (cls.required ++ cls.optional).length)
     (hvalid : FieldsValid E (initCtx cls.required {}) (cls.required ++ cls.optional) vals')
-    (htails : TailsOK E (frameCtx (cls.required ++ cls.optional) vals' (initCtx cls.required {}))
-      (cls.required ++ cls.optional) vals')
     (hcomp : ∀ hlt : vals'.length < (cls.required ++ cls.optional).length,
       handleNoData ((cls.required ++ cls.optional)[vals'.length]).kind = false) :
     ∃ b, writeFrame E.subw E.cfg cls vals = .ok b ∧
       readFrame E.sub E.h cls b = .ok (normVals (cls.required ++ cls.optional) vals', []) :=
-  readFrame_writeFrame E cls vals vals' (by simp [hcfg, hconv]) (greedy_last cls hcls) hlen1 hlen2 hvalid htails hcomp
+  readFrame_writeFrame E cls vals vals' (by simp [hcfg, hconv]) (greedy_last cls hcls) hlen1 hlen2 hvalid hcomp
 
 /-- … and the conversion is the identity when no separator is configured and every encoding
 field is Latin-1 (0) or UTF-16 (1) -/
@@ -360,18 +354,18 @@ def apicVals : List Val := [.int 0, .text [105], .int 3, .text [100], .bytes [0,
 def tbl : Table := Id3Table.frames
 def clsOf (n : String) : FrameClass := (tbl.find (nameBytes n)).get!
 
-/-- the hypothesis `TailsOK` of `frame_roundtrip` cannot be dropped for a v2.3 header: an
-APIC (the class of the generated table) whose picture data is three NUL bytes is written the
-same for v2.3 and v2.4, read back intact under a v2.4 header, but with EMPTY data under a
-v2.3 header -/
-theorem v23_zero_tail_counterexample :
+/-- an APIC (the class of the generated table) whose picture data is three NUL bytes is written
+the same for v2.3 and v2.4 and read back intact under both headers.  (Before the repair recorded
+in known_findings.json the zero-padding work-around of `EncodedTextSpec.read` emptied the data
+under a v2.3 header; harness key `APIC:v2.3:zero-tail`.) -/
+theorem v23_zero_tail_instance :
     clsOf "APIC" ∈ Id3Table.frames ∧
       writeFrame noSubW { version := 3 } (clsOf "APIC") apicVals = .ok [0, 105, 0, 3, 100, 0, 0, 0, 0] ∧
       (match readFrame noSub { version := 4 } (clsOf "APIC") [0, 105, 0, 3, 100, 0, 0, 0, 0] with
        | .ok (vs, _) => Val.beqList vs apicVals
        | .error _ => false) = true ∧
       (match readFrame noSub { version := 3 } (clsOf "APIC") [0, 105, 0, 3, 100, 0, 0, 0, 0] with
-       | .ok (vs, _) => Val.beqList vs [.int 0, .text [105], .int 3, .text [100], .bytes []]
+       | .ok (vs, _) => Val.beqList vs apicVals
        | .error _ => false) = true := by
   refine ⟨Table.find_mem tbl (nameBytes "APIC") (by decide +kernel), ?_, ?_, ?_⟩ <;> decide +kernel
 
